@@ -504,6 +504,7 @@ func run(c *vkit.Collector, rng *vkit.Rng, budget int) {
 	r.approxStream(budget)
 	r.bigCellStream(budget)
 	r.reuseStream(budget)
+	r.resetStream(budget)
 	r.leafStream(budget)
 	r.interiorStream(budget)
 	kinds := []string{"point", "edge", "cell", "index"}
